@@ -8,13 +8,13 @@ func init() {
 			"(A1) weekday flags and dates are bound to their columns with the cell == \"1\" and YYYYMMDD decoders; (TIME) dates are midnight in the first agency's zone or UTC; (A5) calendar before calendar_dates before trips, Services materialised after both; (G6) Static.Services is built once from the map and sorted by id; (G7) no package-level state. " +
 			"Not decided: instant arithmetic of time.Time.Before.",
 		Rules: []Rule{
-			{Name: "SVC", Doc: "create-or-extend, exception table, write-back", MinInstances: 8, Run: runServiceRules},
-			{Name: "A1", Doc: "calendar column bindings", MinInstances: 10, Run: func(c *Ctx) { runColumnTable(c, map[string]bool{"gtfs.Service": true}) }},
-			{Name: "TIME", Doc: "date layout and zone provenance", MinInstances: 4, Run: runTimeFormulas},
-			{Name: "A5", Doc: "phase order", MinInstances: 20, Run: runFileTable},
-			{Name: "REJECT", Doc: "rows of other exception types and invalid rows leave no trace", MinInstances: 10, Run: runRejectInert},
-			{Name: "G6", Doc: "Services built from the map and sorted by id", MinInstances: 3, Run: func(c *Ctx) { runG6(c, staticParseFns(c)) }},
-			{Name: "G7", Doc: "no package-level state", MinInstances: 50, Run: staticGlobalWrites},
+			{Name: "SVC", Doc: "create-or-extend, exception table, write-back", MinInstances: 5, Run: runServiceRules},
+			{Name: "A1", Doc: "calendar column bindings", MinInstances: 7, Run: func(c *Ctx) { runColumnTable(c, map[string]bool{"gtfs.Service": true}) }},
+			{Name: "TIME", Doc: "date layout and zone provenance", MinInstances: 2, Run: runTimeFormulas},
+			{Name: "A5", Doc: "phase order", MinInstances: 14, Run: runFileTable},
+			{Name: "REJECT", Doc: "rows of other exception types and invalid rows leave no trace", MinInstances: 7, Run: runRejectInert},
+			{Name: "G6", Doc: "Services built from the map and sorted by id", MinInstances: 2, Run: func(c *Ctx) { runG6(c, staticParseFns(c)) }},
+			{Name: "G7", Doc: "no package-level state", MinInstances: 35, Run: staticGlobalWrites},
 		},
 	})
 	register(&PropSpec{
@@ -24,10 +24,10 @@ func init() {
 			"(A3) selector fields are bound to their wire fields; (MERGE) alert trips are merged into Trips; (G6) fallback order does not depend on map iteration. " +
 			"Not decided: combinatorics of overlapping selectors beyond these clauses.",
 		Rules: []Rule{
-			{Name: "ALERT", Doc: "predicates, append-under-predicate, keep/clear pairing, fallback guard", MinInstances: 10, Run: runAlertRules},
-			{Name: "A3", Doc: "selector fields bound to wire fields", MinInstances: 50, Run: runWireTable},
-			{Name: "MERGE", Doc: "alert trips merged into Trips", MinInstances: 10, Run: runMergeRules},
-			{Name: "G6", Doc: "fallback entities in deterministic order", MinInstances: 2, Run: func(c *Ctx) { runG6(c, c.anchors("gtfs:parseAlert", "gtfs:ParseRealtime")) }},
+			{Name: "ALERT", Doc: "predicates, append-under-predicate, keep/clear pairing, fallback guard", MinInstances: 7, Run: runAlertRules},
+			{Name: "A3", Doc: "selector fields bound to wire fields", MinInstances: 35, Run: runWireTable},
+			{Name: "MERGE", Doc: "alert trips merged into Trips", MinInstances: 7, Run: runMergeRules},
+			{Name: "G6", Doc: "fallback entities in deterministic order", MinInstances: 1, Run: func(c *Ctx) { runG6(c, c.anchors("gtfs:parseAlert", "gtfs:ParseRealtime")) }},
 		},
 	})
 }
